@@ -131,9 +131,11 @@ def manyChunks (u : TSUnit) : Gen TSUnit := do
     left := left - s
   return { u with chunks := out.toList, firstAF := none }
 
-def patSection (pmtPIDs : List Nat) : Gen (PSISection × Bytes) := do
+def patSection (pmtPIDs : List Nat) (network : Bool := false) : Gen (PSISection × Bytes) := do
   let tsid ← randField 16
-  let progs := pmtPIDs.zipIdx.map fun (pid, i) => ({ programMapID := pid, programNumber := i + 1 } : PATProgram)
+  -- programme 0 is not a programme: its "PMT PID" is the network PID (NIT), which never becomes a PMT PID
+  let progs := (if network then [({ programMapID := 0x10, programNumber := 0 } : PATProgram)] else [])
+    ++ pmtPIDs.zipIdx.map fun (pid, i) => ({ programMapID := pid, programNumber := i + 1 } : PATProgram)
   let sh ← genSyntaxHeader tsid
   return mkSection 0 false (some sh) { pat := some { programs := progs, transportStreamID := tsid } }
 
@@ -150,6 +152,8 @@ structure StreamCfg where
   longPMT : Bool := false
   /-- send the PAT as two sections in one unit, each listing a part of the PMT PIDs (needs >= 2 PMT PIDs) -/
   splitPAT : Bool := false
+  /-- the PAT also lists programme 0 -> network PID 0x10 -/
+  networkPID : Bool := false
 
 def shuffle {α} (xs : List α) : Gen (List α) := do
   let mut a := xs.toArray
@@ -167,7 +171,7 @@ def genStream (cfg : StreamCfg) : Gen StreamModel := do
   let mut firstPatN := 0
   -- PAT: one section; PMT units: 1..multiPMT sections (cut points conformant, see mkPSIUnitMulti)
   if !cfg.pmtPIDs.isEmpty then
-    let ps ← patSection cfg.pmtPIDs
+    let ps ← patSection cfg.pmtPIDs cfg.networkPID
     let u ← (if cfg.splitPAT ∧ cfg.pmtPIDs.length ≥ 2 then do
         -- two sections of one PAT: programmes 1.. on the first PMT PID(s), the rest in the second section
         let k := cfg.pmtPIDs.length / 2
